@@ -3,7 +3,9 @@
 package xmpp
 
 import (
+	"encoding/json"
 	"fmt"
+	"os"
 	"sort"
 	"strings"
 	"testing"
@@ -221,6 +223,14 @@ func c05verdict(cfg c05cfg) func(e *vrt.Exec) {
 }
 
 func TestVerifC05(t *testing.T) {
+	if wc := os.Getenv("VERIF_WS_CASE"); wc != "" {
+		var c wsCase
+		if err := json.Unmarshal([]byte(wc), &c); err != nil {
+			t.Fatal(err)
+		}
+		wsChild(c)
+		return
+	}
 	maxLen, bound := 2, 1
 	segs := []string{"whole", "halves", "first-byte", "last-byte"}
 	sizes := []int{1}
@@ -264,6 +274,7 @@ func TestVerifC05(t *testing.T) {
 				Opt: vrt.Options{Bound: 0, Horizon: 200000}, Body: c05body(cfg, []int{a, 0}, 2), Verdict: c05verdict(cfg)})
 		}
 	}
+	scs = append(scs, wsScenarios()...)
 	if hx.Main("C05", scs) == 2 {
 		t.Fatal("internal error")
 	}
